@@ -76,6 +76,7 @@ def golden_env(tier):
 
 
 PROPS = {
+    "C11": sched_check("model_checking", ["oversized length prefixes are exercised up to 16 MiB; a 2^32-1 prefix (a 4 GiB allocation request per connection) is not executed in the harness"]),
     "C03": sched_check("model_checking", []),
     "C07": lambda *a: __import__("c07").check(*a),
     "C20": sched_check("model_checking", ["listener scenarios run in fine mode: flag and listener-map operations of baselibrary are decision points"]),
